@@ -38,6 +38,10 @@ def parseOp (ws : List String) : Op :=
   | ["udp_send", h] => match hId h with | some h => .udpSend h | none => bad
   | ["work"] => .work
   | ["work_null"] => .workNull
+  | ["reject", "getaddrinfo"] => .reject 0
+  | ["reject", "getnameinfo"] => .reject 1
+  | ["reject", "random"] => .reject 2
+  | ["connect_bad", h] => match hId h with | some h => .connectBad h | none => bad
   | ["udp_send_bad", h] => match hId h with | some h => .udpSendBad h | none => bad
   | ["cancel", r] => match rId r with | some r => .cancel r | none => bad
   | ["stop_loop"] => .stopLoop
@@ -71,6 +75,8 @@ def opText : Op → String
   | .udpSend h => s!"udp_send {hn h}"
   | .work => "work"
   | .workNull => "work_null"
+  | .reject a => "reject " ++ (if a == 0 then "getaddrinfo" else if a == 1 then "getnameinfo" else "random")
+  | .connectBad h => s!"connect_bad {hn h}"
   | .udpSendBad h => s!"udp_send_bad {hn h}"
   | .cancel r => s!"cancel r{r}"
   | .stopLoop => "stop_loop"
@@ -115,6 +121,7 @@ def render : Event → List String
     | .close => [s!"cb close {hn id} {flagStr (a % 2 == 1) (a / 2 % 2 == 1) (a / 4 % 2 == 1)}"]
     | .work => [s!"cb work r{id} {a}"]
     | .udpSend => [s!"cb udp_send r{id} {a}"]
+    | .connect => [s!"cb connect r{id} {a}"]
   | .endcb => ["endcb"]
   | .poll it t r =>
     let head := s!"env poll iter={it} timeout={t} clock={r.clock} done={r.done} ->"
